@@ -53,6 +53,7 @@ def init(repo_root):
     except ImportError:
         pass
     from . import ensemble_model  # noqa: F401
+    from . import maps  # noqa: F401
     return _STATE["repo"], _STATE["reg"]
 
 
